@@ -9,6 +9,6 @@ VERIF_REPO=$d VERIF_EVIDENCE_DIR=$d/ev VERIF_REPLAY_DIR=$d/rp /verif/check $prop
 rc=${PIPESTATUS[0]}
 if [ "${KEEP:-0}" = 1 ]; then echo "kept $d"; else
   tag=$(python3 -c "import hashlib,sys; print(hashlib.sha256(sys.argv[1].encode()).hexdigest()[:8])" $d)
-  rm -rf /verif/.build/kani-target-$tag /verif/.build/replay-target-$tag /verif/.build/replay-crate-$tag $d
+  rm -rf /verif/.build/*-$tag /verif/.build/*-$tag-* $d
 fi
 exit $rc
